@@ -38,16 +38,18 @@ Qed.
 (* Titles start with '~' (find_sections keeps only such lines).  The third test of the chain
    (provisional_version == 3.0 and las3_section) is false wherever the model calls route: LAS 3.0
    sections are outside the model (step_section answers EUnsupported before routing).
+   version_is_3 is `provisional_version == 3.0` (Model/Read.is_v30 of the provisional version after the
+   steering update): only then a title with an underscore is not the ~C / ~P section.
    None on both sides: the title is "~" alone, section_title[1] raises IndexError. *)
 Theorem route_pin : forall title sec l version_is_3,
   startswith [ch_tilde] title = true ->
-  option_map (fun letter => route title letter sec l) (second_upper title)
+  option_map (fun letter => route version_is_3 title letter sec l) (second_upper title)
   = option_map (fun key => store_section key sec l) (py_route_key title version_is_3 false).
 Proof.
   intros title sec l v3 Ht. destruct title as [|t0 [|c r]]; [discriminate Ht|reflexivity|].
   cbn [startswith] in Ht. rewrite andb_true_r in Ht. apply N.eqb_eq in Ht. unfold ch_tilde in Ht. subst t0.
   unfold py_route_key, second_upper, route. rewrite pyo_item_second, pyo_slice_from1.
-  cbn [obind option_map pyo_upper map str_eqb tl]. unfold pyo_in, ch_us. rewrite !andb_true_r, !contains_single.
+  cbn [obind option_map pyo_upper map str_eqb tl]. unfold pyo_in, ch_us. cbv zeta. rewrite !andb_true_r, !contains_single, !(andb_comm v3).
   let x := eval compute in (s2l "~Log_Definition") in change (s2l "~Log_Definition") with x.
   let x := eval compute in (s2l "~Log_Parameter") in change (s2l "~Log_Parameter") with x.
   destruct (str_eqb (c :: r) name_Curves) eqn:EC; [apply str_eqb_true in EC; injection EC as -> ->; reflexivity|].
@@ -58,7 +60,7 @@ Proof.
                 mklas (l_version l) (l_well l) (l_curves l) (l_params l) (l_other l)
                       (set_custom (c :: r) (CItems sec) (l_custom l)) (l_data l) (l_engine_numpy l))
     by (unfold store_section; rewrite EC, EP, EV, EW; reflexivity).
-  destruct (ascii_upper c =? 67); destruct (in_str 95 (126 :: c :: r));
+  cbv zeta. destruct v3; destruct (ascii_upper c =? 67); destruct (in_str 95 (126 :: c :: r));
     destruct (contains [126; 76; 111; 103; 95; 68; 101; 102; 105; 110; 105; 116; 105; 111; 110] (126 :: c :: r));
     destruct (ascii_upper c =? 80);
     destruct (contains [126; 76; 111; 103; 95; 80; 97; 114; 97; 109; 101; 116; 101; 114] (126 :: c :: r));
